@@ -353,6 +353,24 @@ func staticInvalidCases(r *Run, evals *atomic.Int64) {
 	cases := []tc{
 		{"Handle with nil handler", "invalid", func() error { _, err := rt.Handle("GET", "/x", nil); return err }},
 		{"Update with nil handler", "invalid", func() error { _, err := rt.Update("GET", "/x", nil); return err }},
+		{"NewRoute with nil handler", "invalid", func() error { _, err := rt.NewRoute("/x", nil); return err }},
+		{"NewRoute with nil handler and a route middleware", "invalid", func() error {
+			_, err := rt.NewRoute("a.b/{x}", nil, fox.WithMiddleware(func(n fox.HandlerFunc) fox.HandlerFunc { return n }))
+			return err
+		}},
+		{"a route created with a nil handler is never served", "invalid", func() error {
+			r2, _ := fox.New()
+			rte, err := r2.NewRoute("/x", nil)
+			if err != nil {
+				return err
+			}
+			if err = r2.HandleRoute("GET", rte); err != nil {
+				return err
+			}
+			req, _ := http.NewRequest("GET", "/x", nil)
+			r2.ServeHTTP(newPlainWriter(), req) // panics when the nil handler was accepted
+			return nil
+		}},
 		{"HandleRoute with nil route", "invalid", func() error { return rt.HandleRoute("GET", nil) }},
 		{"UpdateRoute with nil route", "invalid", func() error { return rt.UpdateRoute("GET", nil) }},
 		{"global nil middleware", "invalidconfig", func() error { return newErr(fox.WithMiddleware(nil)) }},
@@ -422,7 +440,7 @@ GenAnnKeySeq == <<"k1", "k2">>
 GenBadKeys == {"bad"}
 GenPatterns == %s
 ====
-`, pick(r, 2, 3), pick(r, 3, 4), tlaSeqOfChars([]string{"/a", "a.b/{x}", "/", "{h}.b/a/*{w}/c", "/a{x}/b{y}", "a.b/", "/a/{x}/", "ab.{h}.c/{x}/{y}/*{z}", "/*{w}", "noslash", "/a{"}))
+`, pick(r, 2, 3), pick(r, 3, 4), tlaSeqOfChars([]string{"/a", "a.b/{x}", "/", "{h}.b/a/*{w}/c", "/a{x}/b{y}", "a.b/", "/a/{x}/", "ab.{h}.c/{x}/{y}/*{z}", "/*{w}", "noslash", "/a{", "A.b/{X}", "{Ha}.Bc.d/A/{x}"}))
 	var vecs, evals atomic.Int64
 	ch := make(chan optVec, 16)
 	var wg sync.WaitGroup
@@ -748,6 +766,15 @@ type recVec struct {
 
 type customPanic struct{ msg string }
 
+// panic values whose own methods panic
+type nilPtrError struct{ msg string }
+
+func (e *nilPtrError) Error() string { return e.msg }
+
+type panickyError struct{}
+
+func (panickyError) Error() string { panic("Error method panics") }
+
 func panicValue(class string) any {
 	switch class {
 	case "abort":
@@ -772,6 +799,14 @@ func panicValue(class string) any {
 		return nil
 	case "custom":
 		return customPanic{"custom"}
+	case "nilErrPtr":
+		var e *nilPtrError
+		return e
+	case "nilOpError":
+		var e *net.OpError
+		return e
+	case "panickyError":
+		return panickyError{}
 	}
 	failTool("unknown panic class %q", class)
 	return nil
@@ -844,6 +879,8 @@ func replayRecCase(r *Run, v recVec, progress string, repanic bool, response str
 					c.Writer().Write([]byte("par"))
 				case "flushed":
 					_ = c.Writer().FlushError() // sends the implicit 200 header: the response has started
+				case "info": // an informational header is not the start of the response
+					c.Writer().WriteHeader(103)
 				case "emptycopy": // a source that yields nothing: no byte and no header went out
 					_, _ = io.Copy(c.Writer(), strings.NewReader(""))
 					_, _ = c.Writer().ReadFrom(iotest.ErrReader(errSentinel))
@@ -952,7 +989,7 @@ func replayRecCase(r *Run, v recVec, progress string, repanic bool, response str
 				}
 			case "untouched":
 				ws, wb := 0, ""
-				if cs.Progress != "none" && cs.Progress != "emptycopy" {
+				if cs.Progress != "none" && cs.Progress != "emptycopy" && cs.Progress != "info" {
 					ws = 202
 				}
 				if cs.Progress == "flushed" {
